@@ -590,6 +590,12 @@ func callSSA(i *interpreter, caller *frame, callpos token.Pos, fn *ssa.Function,
 	if fn.Parent() == nil {
 		if len(i.stubs) > 0 {
 			if st, ok := i.stubs[info.name]; ok {
+				if _, skip := st.(skipStub); skip {
+					if fn.Signature.Results().Len() == 0 {
+						return nil
+					}
+					return zero(fn.Signature.Results())
+				}
 				return call(i, caller, callpos, st, args)
 			}
 		}
